@@ -1188,6 +1188,9 @@ def fixed_family(thorough):
 
     def add(kind, mesh, ops, prequery=False, check='result', **kw):
         d = {'kind': kind, 'mesh': mesh, 'ops': ops, 'prequery': prequery, 'check': check, 'rot': 0}
+        if kind == 'volume':
+            # history class used by the known findings: a face split that is not the first operation of its editing block
+            d['late_face_split'] = any(str(o).startswith('face') for o in expand(ops)[1:])
         d.update(kw)
         if d not in cases:
             cases.append(d)
@@ -1258,7 +1261,8 @@ def random_family(seed, n):
             d = {'kind': 'surface', 'mesh': mesh, 'ops': ops, 'prequery': rnd.random() < 0.3, 'check': 'result', 'rot': rnd.choice([0, 0, rnd.randrange(1, 100)])}
         elif r < 0.9:
             ops = [rnd.choice(['cell:%d', 'face:%d']) % rnd.randrange(1000) for _ in range(rnd.randint(1, 3))]
-            d = {'kind': 'volume', 'mesh': rnd.choice(VOL_MESHES), 'ops': ops, 'prequery': rnd.random() < 0.3, 'check': 'result', 'rot': 0}
+            d = {'kind': 'volume', 'mesh': rnd.choice(VOL_MESHES), 'ops': ops, 'prequery': rnd.random() < 0.3, 'check': 'result', 'rot': 0,
+                 'late_face_split': any(str(o).startswith('face') for o in expand(ops)[1:])}
         else:
             ops = ['split:%d' % rnd.randrange(1000) for _ in range(rnd.randint(1, 4))]
             d = {'kind': 'polyline', 'mesh': rnd.choice(PL_MESHES), 'ops': ops, 'prequery': rnd.random() < 0.3, 'check': 'result', 'rot': 0}
